@@ -182,14 +182,20 @@ class Scenario:
                 async with self.kl(str(keys[i])):
                     rec.attempt = -1
                     self._ev_in(rec, i)
-                    if i + 1 < len(keys):
-                        await level(i + 1)
-                    else:
-                        rec.parked = True
-                        try:
-                            await rec.gate
-                        finally:
-                            rec.parked = False
+                    try:
+                        if i + 1 < len(keys):
+                            await level(i + 1)
+                        else:
+                            rec.parked = True
+                            try:
+                                await rec.gate
+                            finally:
+                                rec.parked = False
+                    finally:
+                        # the body ends here; release + deregistration follow without an await
+                        occupants = self.inside.get(keys[i], [])
+                        if AID(rec.tid, i) in occupants:
+                            occupants.remove(AID(rec.tid, i))
             finally:
                 rec.attempt = -1
                 self._ev_after(rec, i)
